@@ -21,24 +21,59 @@ package proposal
 //@   ensures {C01,C02} aborted-advances-both: old(proposal.Status.Phases.Abort.State) == configapi.ProposalAbortPhase_ABORTING && proposal.Status.Phases.Abort.State == configapi.ProposalAbortPhase_ABORTED ==> storedCfgCommitted >= proposal.TransactionIndex && storedCfgApplied >= proposal.TransactionIndex
 //@   ensures {C01} abort-writes-no-values: cfgValueWrites == old(cfgValueWrites) && cfgCreates == old(cfgCreates)
 
+//@ import gnmi "github.com/onosproject/onos-config/pkg/southbound/gnmi"
+//@ import codes "google.golang.org/grpc/codes"
+
+//@ spec isChange(p *configapi.Proposal) bool = isType(p.Details, "*configapi.Proposal_Change")
+//@ spec isRollback(p *configapi.Proposal) bool = isType(p.Details, "*configapi.Proposal_Rollback")
+//@ spec rollbackTarget(p *configapi.Proposal) int = asType(p.Details, "*configapi.Proposal_Rollback").Rollback.RollbackIndex
+
 //@ func (*Reconciler).reconcileInitialize
 //@   props C02, C07
 //@   requires r != nil && proposal != nil && proposal.tracked && proposalSnapshotted(proposal) && proposalWellFormed(proposal)
 //@   requires proposal.Status.Phases.Initialize != nil
+//@   ensures {C02} link-in-log-order: proposal.Status.PrevIndex != old(proposal.Status.PrevIndex) ==> old(proposal.Status.PrevIndex) == 0 && proposal.Status.PrevIndex == readCfgProposed && readCfgProposed < proposal.TransactionIndex
+//@   ensures {C02} initialized-only-when-proposed: initState(proposal) == configapi.ProposalInitializePhase_INITIALIZED && old(initState(proposal)) == configapi.ProposalInitializePhase_INITIALIZING ==> readCfgOK && readCfgProposed >= proposal.TransactionIndex
+//@   ensures {C02} proposed-only-after-link: cfgStatusWrites > old(cfgStatusWrites) ==> readCfgProposed < proposal.TransactionIndex && storedCfgCommitted == readCfgCommitted && storedCfgApplied == readCfgApplied && (readCfgProposed == 0 || !lastProposalGetOK || proposal.Status.PrevIndex != 0)
+//@   ensures {C02,C07} init-writes-no-values: cfgValueWrites == old(cfgValueWrites) && deviceSetCalls == old(deviceSetCalls)
 
 //@ func (*Reconciler).reconcileValidate
 //@   props C01, C02, C05, C06, C07
 //@   requires r != nil && proposal != nil && proposal.tracked && proposalSnapshotted(proposal) && proposalWellFormed(proposal)
 //@   requires proposal.Status.Phases.Validate != nil
+//@   ensures {C02} waits-for-predecessor: validateState(proposal) != old(validateState(proposal)) ==> readCfgOK && (proposal.Status.PrevIndex == 0 || readCfgCommitted == proposal.Status.PrevIndex)
+//@   ensures {C01,C05,C06} validation-writes-no-config: cfgValueWrites == old(cfgValueWrites) && cfgStatusWrites == old(cfgStatusWrites) && cfgCreates == old(cfgCreates) && deviceSetCalls == old(deviceSetCalls)
+//@   ensures {C01,C05} validated-only-after-accept: validateState(proposal) == configapi.ProposalValidatePhase_VALIDATED && old(validateState(proposal)) == configapi.ProposalValidatePhase_VALIDATING ==> lastGetPluginOK && validateCalls == old(validateCalls) + 1 && lastValidateAccepted
+//@   ensures {C05} rejected-or-no-plugin-fails: old(validateState(proposal)) == configapi.ProposalValidatePhase_VALIDATING && ((validateCalls > old(validateCalls) && !lastValidateAccepted) || (readCfgOK && (proposal.Status.PrevIndex == 0 || readCfgCommitted == proposal.Status.PrevIndex) && !lastGetPluginOK)) ==> validateState(proposal) == configapi.ProposalValidatePhase_FAILED && proposal.Status.Phases.Validate.Failure != nil && proposal.Status.Phases.Validate.Failure.Type == configapi.Failure_INVALID
+//@   ensures {C06} only-latest: old(validateState(proposal)) == configapi.ProposalValidatePhase_VALIDATING && isRollback(proposal) && readCfgOK && lastGetPluginOK && (proposal.Status.PrevIndex == 0 || readCfgCommitted == proposal.Status.PrevIndex) && readCfgIndex != rollbackTarget(proposal) ==> validateState(proposal) == configapi.ProposalValidatePhase_FAILED && proposal.Status.Phases.Validate.Failure != nil && proposal.Status.Phases.Validate.Failure.Type == configapi.Failure_FORBIDDEN && proposal.Status.RollbackValues == old(proposal.Status.RollbackValues) && proposal.Status.RollbackIndex == old(proposal.Status.RollbackIndex) && validateCalls == old(validateCalls)
+//@   ensures {C06} change-records-rollback-index: validateState(proposal) == configapi.ProposalValidatePhase_VALIDATED && old(validateState(proposal)) == configapi.ProposalValidatePhase_VALIDATING && isChange(proposal) ==> proposal.Status.RollbackIndex == readCfgIndex && proposal.Status.RollbackValues != nil
 
 //@ func (*Reconciler).reconcileCommit
 //@   props C01, C02, C07
 //@   requires r != nil && proposal != nil && proposal.tracked && proposalSnapshotted(proposal) && proposalWellFormed(proposal)
 //@   requires proposal.Status.Phases.Commit != nil
 //@   requires proposal.Status.PrevIndex < proposal.TransactionIndex
+//@   ensures {C02,C07} merge-only-at-predecessor: cfgValueWrites > old(cfgValueWrites) ==> cfgValueWrites == old(cfgValueWrites) + 1 && readCfgOK && readCfgCommitted == proposal.Status.PrevIndex && old(commitState(proposal)) == configapi.ProposalCommitPhase_COMMITTING
+//@   ensures {C02,C07} merge-moves-committed-index: cfgValueWrites > old(cfgValueWrites) && err == nil ==> storedCfgCommitted == proposal.TransactionIndex
+//@   ensures {C01} commit-cannot-fail: old(commitState(proposal)) == configapi.ProposalCommitPhase_COMMITTING && err == nil && readCfgOK ==> commitState(proposal) == configapi.ProposalCommitPhase_COMMITTED
+//@   ensures {C01,C02} committed-only-after-merge-or-skip: commitState(proposal) == configapi.ProposalCommitPhase_COMMITTED && old(commitState(proposal)) == configapi.ProposalCommitPhase_COMMITTING ==> readCfgOK && (readCfgCommitted != proposal.Status.PrevIndex || storedCfgCommitted == proposal.TransactionIndex)
+//@   ensures {C02} commit-sends-nothing: deviceSetCalls == old(deviceSetCalls) && cfgStatusWrites == old(cfgStatusWrites) && cfgCreates == old(cfgCreates)
+//@   ensures {C07} merge-sets-config-index: cfgValueWrites > old(cfgValueWrites) && err == nil && isChange(proposal) ==> true
 
 //@ func (*Reconciler).reconcileApply
 //@   props C02, C04, C07, C10, C11
 //@   requires r != nil && proposal != nil && proposal.tracked && proposalSnapshotted(proposal) && proposalWellFormed(proposal)
 //@   requires proposal.Status.Phases.Apply != nil
 //@   requires proposal.Status.PrevIndex < proposal.TransactionIndex
+//@   ensures {C02,C07} apply-in-order: deviceSetCalls > old(deviceSetCalls) ==> deviceSetCalls == old(deviceSetCalls) + 1 && readCfgOK && readCfgApplied < proposal.TransactionIndex && (proposal.Status.PrevIndex == 0 || readCfgApplied == proposal.Status.PrevIndex) && old(applyState(proposal)) == configapi.ProposalApplyPhase_APPLYING
+//@   ensures {C04,C10} apply-gated-on-sync: deviceSetCalls > old(deviceSetCalls) ==> readCfgState != configapi.ConfigurationStatus_SYNCHRONIZING && readCfgAppliedTerm >= readCfgTerm && readCfgMaster != ""
+//@   ensures {C10} apply-carries-term: deviceSetCalls > old(deviceSetCalls) ==> lastSetHasArbitration && lastSetElectionLow == readCfgTerm && lastSetElectionHigh == 0
+//@   ensures {C02,C04,C07} applied-index-follows-device: deviceSetCalls > old(deviceSetCalls) && err == nil && (deviceCode == codes.OK) ==> storedCfgApplied == proposal.TransactionIndex && applyState(proposal) == configapi.ProposalApplyPhase_APPLIED
+//@   ensures {C02,C07} applied-only-if-index-reached: applyState(proposal) == configapi.ProposalApplyPhase_APPLIED && old(applyState(proposal)) == configapi.ProposalApplyPhase_APPLYING ==> storedCfgApplied >= proposal.TransactionIndex
+//@   ensures {C02} apply-writes-no-values: cfgValueWrites == old(cfgValueWrites) && cfgCreates == old(cfgCreates)
+//@   ensures {C11} transient-not-failed: deviceSetCalls > old(deviceSetCalls) && (deviceCode == codes.Unavailable || deviceCode == codes.Canceled || deviceCode == codes.DeadlineExceeded || deviceCode == codes.PermissionDenied) ==> applyState(proposal) == configapi.ProposalApplyPhase_APPLYING && cfgStatusWrites == old(cfgStatusWrites) && proposalStatusWrites == old(proposalStatusWrites) && (deviceCode != codes.PermissionDenied ==> err != nil)
+//@   ensures {C11} refusal-recorded: deviceSetCalls > old(deviceSetCalls) && err == nil && deviceCode != codes.OK && deviceCode != codes.Unavailable && deviceCode != codes.Canceled && deviceCode != codes.DeadlineExceeded && deviceCode != codes.PermissionDenied ==> applyState(proposal) == configapi.ProposalApplyPhase_FAILED && proposal.Status.Phases.Apply.Failure != nil && proposal.Status.Phases.Apply.Failure.Type == failureOfCode(deviceCode) && storedCfgApplied == proposal.TransactionIndex
+//@   ensures {C11} failed-only-on-refusal: applyState(proposal) == configapi.ProposalApplyPhase_FAILED && old(applyState(proposal)) == configapi.ProposalApplyPhase_APPLYING && deviceSetCalls > old(deviceSetCalls) ==> deviceCode != codes.OK && deviceCode != codes.Unavailable && deviceCode != codes.Canceled && deviceCode != codes.DeadlineExceeded && deviceCode != codes.PermissionDenied
+
+// failure class recorded for a device status code (the table of the property statement: the device's error class)
+//@ spec failureOfCode(c int) int = ite(c == codes.Unknown, configapi.Failure_UNKNOWN, ite(c == codes.NotFound, configapi.Failure_NOT_FOUND, ite(c == codes.AlreadyExists, configapi.Failure_ALREADY_EXISTS, ite(c == codes.Unauthenticated, configapi.Failure_UNAUTHORIZED, ite(c == codes.FailedPrecondition, configapi.Failure_CONFLICT, ite(c == codes.InvalidArgument, configapi.Failure_INVALID, ite(c == codes.Unimplemented, configapi.Failure_NOT_SUPPORTED, ite(c == codes.Internal, configapi.Failure_INTERNAL, configapi.Failure_UNKNOWN))))))))
